@@ -434,7 +434,7 @@ func ruleSaveRestore(c *eng.Ctx) {
 				return
 			}
 			for v := range eng.SliceInter(stx.Val, func(*ssa.Call) bool { return true }, saveCluster) {
-				if call, ok := v.(*ssa.Call); ok && call.Call.StaticCallee() == clone {
+				if call, ok := v.(*ssa.Call); ok && eng.StaticCallee(call) == clone {
 					pushed = true
 				}
 			}
@@ -552,7 +552,7 @@ func operandIndices(v ssa.Value) (idx map[int]bool, whole bool) {
 				idx[int(k)] = true
 			}
 		case *ssa.Call:
-			if f := x.Call.StaticCallee(); f != nil && f.Name() == "operandsToMatrix" && len(x.Call.Args) == 1 && isOperands(x.Call.Args[0]) {
+			if f := eng.StaticCallee(x); f != nil && f.Name() == "operandsToMatrix" && len(x.Call.Args) == 1 && isOperands(x.Call.Args[0]) {
 				whole = true
 			}
 		}
@@ -761,7 +761,7 @@ func ruleOperatorBinding(c *eng.Ctx) {
 				if depth > 1 {
 					return false
 				}
-				cal := ci.Common().StaticCallee()
+				cal := eng.StaticCallee(ci)
 				if cal == nil {
 					if mc, ok := ci.Common().Value.(*ssa.MakeClosure); ok {
 						cal, _ = mc.Fn.(*ssa.Function)
@@ -872,7 +872,7 @@ func isFloat64(t types.Type) bool {
 func matrixFromOperandsInOrder(v ssa.Value) bool {
 	v = eng.Unwrap(v)
 	if call, ok := v.(*ssa.Call); ok {
-		if f := call.Call.StaticCallee(); f != nil && f.Name() == "operandsToMatrix" {
+		if f := eng.StaticCallee(call); f != nil && f.Name() == "operandsToMatrix" {
 			return true
 		}
 	}
@@ -951,7 +951,7 @@ func tableDispatchCall(p *eng.Prog, fn *ssa.Function, op, callee string) ssa.Cal
 	var found ssa.CallInstruction
 	eng.Instrs(fn, false, func(in ssa.Instruction) {
 		ci, ok := in.(ssa.CallInstruction)
-		if !ok || ci.Common().StaticCallee() != nil || ci.Common().IsInvoke() {
+		if !ok || eng.StaticCallee(ci) != nil || ci.Common().IsInvoke() {
 			return
 		}
 		for w := range eng.Slice(ci.Common().Value, nil) {
